@@ -1,0 +1,14 @@
+// Copyright 2019 The Scriggo Authors. All rights reserved.
+// Use of this source code is governed by a BSD-style
+// license that can be found in the LICENSE file.
+
+//go:build !verif
+
+package compiler
+
+// verifOn reports whether the verification hooks are compiled in. Without
+// the "verif" build tag it is the constant false, so every
+// "if verifOn { ... }" guard is removed by the compiler.
+const verifOn = false
+
+func verifLex(l *lexer, proc int, ev string, n int) {}
